@@ -164,10 +164,12 @@ static size_t load_rx(vp_iface *f, const char *hex) {
 static void snap_M(vp_iface *f) {
     if (!opt_asnap || !f->mapping) return;
     mapping_state *m = (mapping_state *)f->mapping->extra;
-    vp_logf("A M %u %llu %u %llu %llu\n", f->mapping->current_state,
+    vp_logf("A M %u %llu %u %llu %llu %d %d %d\n", f->mapping->current_state,
             (unsigned long long)f->mapping->last_ts, m ? m->ctc : 0,
             (unsigned long long)(m ? m->charge_timeout_ts : 0),
-            (unsigned long long)(m ? m->inactive_timeout_ts : 0));
+            (unsigned long long)(m ? m->inactive_timeout_ts : 0),
+            (int)f->mapping->states_table[0].timeout, (int)f->mapping->states_table[1].timeout,
+            (int)f->mapping->states_table[2].timeout);
 }
 
 static void snap_S(vp_iface *f) {
@@ -316,6 +318,18 @@ static void run_line(char *line) {
         vh_flow_tick(f);
         snap_M(f); snap_E(f); snap_T(f);
         end_input();
+    } else if (!strcmp(op, "KR")) {                      /* KR i n ms: n times (advance ms, tick) */
+        vp_iface *f = ifc_of(tok[1]);
+        long n = atol(tok[2]);
+        uint64_t step = strtoull(tok[3], NULL, 0);
+        vh_flow_ensure(f);
+        for (long k = 0; k < n; k++) {
+            vp_now_ms += step;
+            begin_input("K", f);
+            vh_flow_tick(f);
+            snap_M(f); snap_E(f); snap_T(f);
+            end_input();
+        }
 #ifdef VH_WITH_ESP32
     } else if (!strcmp(op, "X")) {                       /* esp32 length-checked entry */
         vp_iface *f = ifc_of(tok[1]);
